@@ -127,6 +127,7 @@ let bytes_of_hex h =
 let x64 = "2"
 let a64 = "6"
 let a64_fixed = Array.exists (fun a -> a = "--a64-fixed") Sys.argv
+let embed_total_fixed = Array.exists (fun a -> a = "--embed-total-fixed") Sys.argv
 
 let read_a64_op (toks : string list) : Fmt.a64op * string list =
   let rt c = Fmt.a64rt_of_code (cz_of_string c) in
@@ -204,10 +205,10 @@ let () =
           Printf.printf "O %s\n" (string_of_text (Fmt.fmt_operand (fflags_of (int_of_string ff)) op))
         | "X" :: arch :: ff :: r when arch = x64 ->
           let (i, _, _) = read_inst ~with_comment:false r in
-          Printf.printf "X %s\n" (string_of_text (Fmt.fmt_inst (fflags_of (int_of_string ff)) i))
+          Printf.printf "X %s\n" (string_of_text (Fmt.fmt_inst_ex (int_of_string ff land ff_explain <> 0) (fflags_of (int_of_string ff)) i))
         | "E" :: arch :: ff :: r when arch = x64 ->
           let (i, _, _) = read_inst ~with_comment:true r in
-          Printf.printf "E %s\n" (string_of_text (Fmt.fmt_inst (fflags_of (int_of_string ff)) i))
+          Printf.printf "E %s\n" (string_of_text (Fmt.fmt_inst_ex (int_of_string ff land ff_explain <> 0) (fflags_of (int_of_string ff)) i))
         | "O" :: arch :: ff :: r when arch = a64 ->
           let (op, _) = read_a64_op r in
           Printf.printf "O %s\n" (string_of_text (Fmt.a64_fmt_operand a64_fixed (fflags_of (int_of_string ff)) op))
@@ -239,7 +240,7 @@ let () =
           Printf.printf "F %s\n" (show_line (Fmt.finish_line (text_of_string text) (nat_of_int (int_of_string pad1)) (nat_of_int (int_of_string pad2)) bin c))
         | "Y" :: a64f :: size :: rep :: hx :: _ ->
           Printf.printf "Y %s\n" (string_of_text (Fmt.fmt_data (a64f = "1") (cz_of_string size) (bytes_of_hex hx) (cz_of_string rep)))
-        | "Z" :: ff :: inl :: kind :: r ->
+        | "Z" :: ff :: inl :: pos :: kind :: r ->
           let f = fflags_of (int_of_string ff) in
           let node = (match kind, r with
             | "L", _ -> Fmt.NLabel (zi 0)
@@ -248,11 +249,13 @@ let () =
             | "D", size :: count :: rep :: _ ->
               Fmt.NEmbed (cz_of_string size, cz_of_string count, cz_of_string rep,
                           (* "TotalSize" is EmbedDataNode::data_size() = item size * count (the repeat count is not included) *)
-                          cz_of_z (Z.mul (Z.of_string size) (Z.of_string count)))
+                          (* pinned tree: the repeat count is not included; with fixes/C20-embed-node-totalsize.patch it is *)
+                          cz_of_z (Z.mul (Z.mul (Z.of_string size) (Z.of_string count)) (if embed_total_fixed then Z.of_string rep else Z.one)))
             | "S", nm :: _ -> Fmt.NSection (text_of_string nm)
             | "I", r -> let (i, _, _) = read_inst ~with_comment:false r in Fmt.NInst i
             | _ -> raise (Bad "node")) in
-          Printf.printf "Z %s\n" (string_of_text (Fmt.fmt_node f (nat_of_int 44) node (if inl = "-" then [] else text_of_string inl)))
+          Printf.printf "Z %s\n" (string_of_text (Fmt.fmt_node_pos (int_of_string ff land ff_positions <> 0) (cz_of_string pos) f (nat_of_int 44) node
+                                                     (if inl = "-" then [] else text_of_string inl)))
         | "P" :: "D" :: _ ->
           let (_, text) = split_bar line in
           (match Fmt.parse_data (text_of_string text) with
@@ -267,6 +270,90 @@ let () =
           else
             Printf.printf "W %s\n" (string_of_text (Fmt.x86_fmt_virt (ff land ff_reg_type <> 0) (ff land ff_reg_casts <> 0)
               (if name = "-" then None else Some (text_of_string name)) (cz_of_string vidx) (Fmt.rt_of_code (cz_of_string vtype)) ot))
+        | "K" :: ff :: nv :: r ->
+          let ff = int_of_string ff in
+          let rec env n toks acc = if n = 0 then (List.rev acc, toks) else
+              (match toks with
+               | vt :: nm :: rest -> env (n - 1) rest (((if nm = "-" then None else Some (text_of_string nm)), Fmt.rt_of_code (cz_of_string vt)) :: acc)
+               | _ -> raise (Bad "venv")) in
+          let (e, rest) = env (int_of_string nv) r [] in
+          (* operands: H = memory operand that is a register home; remember the flags and read it as M *)
+          let homes = ref [] in
+          let rest' = List.map (fun tk -> if tk = "H" then "M" else tk) rest in
+          (match rest with
+           | _id :: _mn :: _op :: tl ->
+             let rec scan toks = (match toks with
+               | [] -> ()
+               | "H" :: r' -> homes := true :: !homes; scan (skip 12 r')
+               | "M" :: r' -> homes := false :: !homes; scan (skip 12 r')
+               | "R" :: r' -> homes := false :: !homes; scan (skip 2 r')
+               | "I" :: r' -> homes := false :: !homes; scan (skip 1 r')
+               | "L" :: r' -> homes := false :: !homes; scan (skip 1 r')
+               | "N" :: r' -> homes := false :: !homes; scan r'
+               | _ :: r' -> scan r')
+             and skip n l = if n = 0 then l else (match l with [] -> [] | _ :: t -> skip (n - 1) t) in
+             (* skip the extra register and the operand count *)
+             let after_extra = (match tl with "N" :: t -> t | "R" :: _ :: _ :: t -> t | t -> t) in
+             (match after_extra with _n :: ops -> scan ops | [] -> ())
+           | _ -> ());
+          let (i, _, _) = read_inst ~with_comment:false rest' in
+          Printf.printf "K %s\n" (string_of_text (Fmt.fmt_inst_virt e (ff land ff_reg_type <> 0) (ff land ff_reg_casts <> 0) (fflags_of ff) i (List.rev !homes)))
+        | "J" :: ff :: nv :: r ->
+          let ff = int_of_string ff in
+          let rec env n toks acc = if n = 0 then (List.rev acc, toks) else
+              (match toks with
+               | vt :: nm :: rest -> env (n - 1) rest (((if nm = "-" then None else Some (text_of_string nm)), Fmt.rt_of_code (cz_of_string vt)) :: acc)
+               | _ -> raise (Bad "venv")) in
+          let (e, rest) = env (int_of_string nv) r [] in
+          let (o0, rest) = read_x86_op rest in
+          let (o1, _) = read_x86_op rest in
+          Printf.printf "J %s\n" (string_of_text (Fmt.fmt_func_ret e (ff land ff_reg_type <> 0) (ff land ff_reg_casts <> 0) (fflags_of ff) o0 o1))
+        | "RL" :: arch :: rt :: mask :: _ ->
+          let name = if arch = "5" then Fmt.a32_reg
+                     else (fun id -> Fmt.a64_fmt_operand true (fflags_of 0) (Fmt.AOReg (Fmt.a64rt_of_code (cz_of_string rt), id, zi 0, None))) in
+          Printf.printf "RL %s\n" (string_of_text (Fmt.fmt_reglist name (cz_of_string mask)))
+        | "P" :: "RL" :: _ ->
+          let (_, text) = split_bar line in
+          (match Fmt.parse_reglist (text_of_string text) with Some m -> Printf.printf "P %s\n" (string_of_cz m) | None -> print_endline "P <no parse>")
+        | "QI" :: ff :: r ->
+          let ff = int_of_string ff in
+          let (tgt, _) = read_x86_op r in
+          let env = [ (None, Fmt.Gp64); (Some (text_of_string "fnptr"), Fmt.Gp64) ] in
+          let i = { Fmt.i_mnem = text_of_string "call"; i_opts = opts_of 0; i_extra = None; i_ops = [tgt] } in
+          Printf.printf "QI %s\n" (string_of_text (Fmt.fmt_inst_virt env (ff land ff_reg_type <> 0) (ff land ff_reg_casts <> 0) (fflags_of ff) i []))
+        | "Q" :: _ff :: ret :: nargs :: r ->
+          let tyname = function "1" -> "int32" | "2" -> "uint32" | "3" -> "int64" | "4" -> "uint64" | "5" -> "float32" | "6" -> "float64" | _ -> "void" in
+          let n = int_of_string nargs in
+          let rec take k l acc = if k = 0 then (List.rev acc, l) else (match l with ty :: b :: rest -> take (k - 1) rest ((ty, b) :: acc) | _ -> raise (Bad "Q args")) in
+          let (args, rest) = take n r [] in
+          let rest = (match rest with "E" :: t -> t | _ -> raise (Bad "Q expectation")) in
+          let read_assign toks = (match toks with
+            | "R" :: t :: id :: tl -> (Fmt.FAReg (Fmt.rt_of_code (cz_of_string t), cz_of_string id), tl)
+            | "S" :: off :: tl -> (Fmt.FAStack (cz_of_string off), tl)
+            | "V" :: tl -> (Fmt.FANone, tl)
+            | _ -> raise (Bad "assign")) in
+          let (ra, rest) = read_assign rest in
+          let rets = if ret = "0" then [] else [ (text_of_string (tyname ret), ra) ] in
+          let vcount = ref 0 in
+          let rec build i args rest acc = (match args with
+            | [] -> List.rev acc
+            | (ty, b) :: tl ->
+              let (a, rest') = read_assign rest in
+              let nm = (match b with
+                | "-" -> None
+                | "u" -> let k = !vcount in incr vcount; Some (text_of_string ("%" ^ string_of_int k))
+                | _ -> incr vcount; Some (text_of_string ("a" ^ string_of_int i))) in
+              build (i + 1) tl rest' (((text_of_string (tyname ty), a), nm) :: acc)) in
+          let al = build 0 args rest [] in
+          Printf.printf "Q %s\n" (string_of_text (Fmt.fmt_func_node (zi 1) rets al))
+        | "W6" :: _ff :: optype :: vidx :: _vtype :: name :: et :: ei :: _ ->
+          let ot = Fmt.a64rt_of_code (cz_of_string optype) in
+          if name = "!" then
+            Printf.printf "W6 %s\n" (string_of_text (Fmt.a64_fmt_operand true (fflags_of 0)
+              (Fmt.AOReg (ot, cz_of_z (Z.add (Z.of_string vidx) (Z.of_int 256)), cz_of_string et, (if ei = "-1" then None else Some (cz_of_string ei))))))
+          else
+            Printf.printf "W6 %s\n" (string_of_text (Fmt.a64_fmt_virt (if name = "-" then None else Some (text_of_string name)) (cz_of_string vidx) ot
+                                                      (cz_of_string et) (if ei = "-1" then None else Some (cz_of_string ei))))
         | "U" :: ff :: nv :: r ->
           let ff = int_of_string ff in
           let rec env n toks acc = if n = 0 then (List.rev acc, toks) else
